@@ -9,11 +9,12 @@ from ..prog import Contract, Interface, Method
 
 # which canonical expansion lines are compared for which property
 L1_LINES = {
-    "C01": re.compile(r"^(status|enum \S+ (variants|ctors)|variant \S+ fields|struct \S+ fields)"),
+    "C01": re.compile(r"^(status|enum \S+ (variants|ctors|phantom_attrs)|variant \S+ fields|struct \S+ fields)"),
     "C02": re.compile(r"^(status|arm |struct \S+ call)"),
     "C03": re.compile(r"^(status|wrapper |enum \S+ table)"),
     "C04": re.compile(r"^(status|wrapper \S+ (variants|tables)|enum \S+ variants)"),
     "C05": re.compile(r"^(status|enum \S+ table|wrapper \S+ tables)"),
+    "C11": re.compile(r"^(status|wrapper \S+ (bridged|variants))"),
 }
 
 
@@ -65,6 +66,15 @@ def l1_oracle(pid, p, impl_lines, run, desc):
                 want = "%s:%s" % (ms[0].name, ",".join(a.name for a in ms[0].args))
                 if got != want:
                     run.oracle_fail("%s dispatches as `%s`, expected `%s`" % (sn, got, want), desc)
+    if pid == "C11" and is_c:
+        ifs = [a.sv for a in p.attrs if a.sv and a.sv[0] == "messages"]
+        for wn, ep in (("ContractExecMsg", "execute"), ("ContractQueryMsg", "query"), ("ContractSudoMsg", "sudo")):
+            got = [x for x in d.get("wrapper %s bridged" % wn, "").split(",") if x]
+            want = []
+            for (_, module, as_name, cmsg, cquery) in ifs:
+                want.append("%d:%d" % (1 if (cmsg and ep != "query") else 0, 1 if cquery else 0))
+            if [g.split(":", 1)[1] for g in got] != want:
+                run.oracle_fail("%s bridges its interfaces as %s (response:ctx), the custom(..) markers ask for %s" % (wn, got, want), desc)
     if pid in ("C03", "C04", "C05") and is_c:
         n_if = sum(1 for a in p.attrs if a.sv and a.sv[0] == "messages")
         for wn, ep in (("ContractExecMsg", "execute"), ("ContractQueryMsg", "query"), ("ContractSudoMsg", "sudo")):
